@@ -24,6 +24,12 @@ CHECKS = {
  "C18": dict(engine="schemasim", technique="deterministic simulation: seeded add_table/lookup histories with injected failing registrations, failing lookups and cache evictions; oracles = history-free twin, reference model, fresh schema from final mapping; ddmin-minimised JSON replay",
    level_text="Seeded exploration of MappingSchema histories (24k quick / 400k thorough runs of 4-40 ops, swarm-configured) with fault injection (failed add_table, unparsable types, ambiguous names, cache eviction at PRNG-chosen points). Every lookup is compared with a history-free twin running the same real code, with a small dict model of the registrations, and with a MappingSchema freshly built from the SUT's final mapping. A clean batch is evidence, not proof; sensitivity is shown by the three defects it found on the pinned tree and by the mutants in mutants/.",
    design_ref="DESIGN.md 3.3", note="Trusts the dialect's identifier normalisation (used by the O2 model only), CPython, and the harness' JSON op interpreter. Universe is small by design (2 catalogs x 2 dbs x 3 tables x 3 columns)."),
+ "C08": dict(engine="treesim", technique="deterministic simulation: seeded edit histories over a forest of syntax trees interleaving cache-populating ops with mutations, producers and optimizer rules, with injected aborted callbacks / failing rules / unparsable builder arguments; link, no-sharing, hash-recomputation, equality and frame invariants after every step; ddmin-minimised JSON replay",
+   level_text="Seeded exploration (9.6k quick / 160k thorough histories of 8-90 ops, swarm-configured op mix) of the per-node memo (_hash) and back-link state under public tree operations: set/append/replace/pop/transform/replace_children/replace_tree/set_kwargs/builders(copy=False)/comments, parse of ~12k corpus statements in their dialects, copy/deepcopy/serde/pickle, all 14 optimizer rules applied in place to parser-reachable trees, diff on subtrees. After EVERY step: I1 child records exactly its parent/arg_key/index, I2 no node stored twice (within/across trees/pool), I3 every cached hash equals the real hash function on a cache-free clone, I4 tree == clone and SQL-changed => != snapshot, I5 other trees keep a strict identity fingerprint. Faults: callback abort at the k-th node, rule raising mid-rewrite, ParseError in builders. Evidence, not proof; sensitivity shown by the 9 defects found on the pinned tree and by mutants/.",
+   design_ref="DESIGN.md 3.4", note="Trusts CPython, the harness' op interpreter and clone(); optimizer rules are applied only to trees that round-trip through the parser in the dialect given (rules promise nothing for malformed trees); equality oracle is one-directional (see DESIGN)."),
+ "C09": dict(engine="treesim", technique="deterministic simulation: same tree-forest machine, op mix dominated by calls documented not to mutate (sql x 33 dialects x options, optimize, qualify/annotate of a copy, diff, lineage, transform/builders with copy=True, expand, replace_tables, replace_placeholders, operators, copy/deepcopy) interleaved with edits; strict identity fingerprint + SQL of every argument before/after, also when the call raises; injected stack exhaustion, callback aborts, ParseErrors; ddmin replay",
+   level_text="Seeded exploration (9.6k quick / 160k thorough histories) in which every non-mutating call is bracketed by a strict fingerprint (node identities, parent/arg_key/index, scalars, comments, types, meta) and the base-dialect SQL of each argument tree, including when the call fails with UnsupportedError/OptimizeError/ParseError or with a RecursionError injected at a PRNG-chosen stack depth; copies must be equal, structurally identical and node-disjoint, and later edits of either side must leave the other's fingerprint unchanged (frame condition). Evidence, not proof.",
+   design_ref="DESIGN.md 3.5", note="Trusts CPython and the harness; trees come from the corpus (fixtures + ~12k dialect statements + built-ins), not from an exhaustive grammar; cache state alone is not part of the C09 fingerprint (stale caches are C08's I3)."),
 }
 
 def main():
